@@ -19,6 +19,7 @@ mod c16;
 mod c17;
 mod c18;
 mod c19;
+mod c20;
 
 use serde_json::{json, Value};
 use std::io::{BufRead, Write};
@@ -46,6 +47,7 @@ fn dispatch(case: &Value) -> Value {
         "c17" => c17::run(k, case),
         "c18" => c18::run(k, case),
         "c19" => c19::run(k, case),
+        "c20" => c20::run(k, case),
         _ => json!({"unknown": k}),
     }
 }
